@@ -257,7 +257,7 @@ class Memory(Backend):
         new_val = []
         if val_list:
             for val in val_list:
-                if start <= val < end:
+                if start <= val <= end:  # a stamp equal to `end` is a call made at this very instant: it counts
                     count += 1
                     new_val.append(val)
         if count < maxvalue:
